@@ -18,6 +18,7 @@ import (
 	"github.com/sharedcode/sop/common"
 	"github.com/sharedcode/sop/fs"
 	"verif.local/mc/detuuid"
+	"verif.local/mc/ev"
 	"verif.local/mc/l2x"
 	"verif.local/mc/vhook"
 )
@@ -45,6 +46,9 @@ func init() {
 	}
 	Dir = filepath.Join(Base, "w")
 	Tpl = filepath.Join(Base, "tpl")
+	if os.Getenv("VERIF_BASE") == "" {
+		ev.OnExit(Cleanup) // the scratch root of this process; a shared VERIF_BASE belongs to whoever set it
+	}
 }
 
 // Cleanup removes the scratch root.
